@@ -41,7 +41,7 @@ type obligation struct {
 
 func TestC18ChainExchange(t *testing.T) {
 	rapid.Check(t, func(t *rapid.T) {
-		ctx, cancel := context.WithTimeout(context.Background(), 60*time.Second)
+		ctx, cancel := context.WithTimeout(context.Background(), 600*time.Second)
 		defer cancel()
 		mn, hs := newNet(t, 1)
 		defer mn.Close()
